@@ -14,7 +14,8 @@
    * np.kron treats the placeholder as the 1x1 unit (np.kron(G, 1) = G = np.kron(1, G): ofE EnOne has width 0);
    * self.circuit[:, 0] raises IndexError when there is no row (nqubit = 0: the array is one-dimensional) or no column (depth = 0);
    * a column made of placeholders only reduces to a 0-dimensional value (several rows: np.multiply(1, 1); one row: the int 1),
-     on which `@` raises ValueError whatever the other operand is; `@` on matrices of different size raises ValueError;
+     on which `@` raises ValueError when the other operand is an array -- and TypeError when it is such a scalar as well (nothing
+     written in the first two columns: neither int nor numpy.int64 implements `@`); `@` on matrices of different size raises ValueError;
      n = the number of qubits of psi0 (len(psi0) = 2^n): the last `@` raises ValueError when the product is not 2^n x 2^n. *)
 From Coq Require Import List Bool Arith.
 Require Import QG.Base.Res QG.Base.State QG.Base.Mat QG.Model.Backends.
@@ -30,12 +31,16 @@ Notation wmat := (nat * (bits -> bits -> R))%type (only parsing).
 Definition column (grid : list (list entry)) (c : nat) : list entry := map (fun row => nth c row EnOne) grid.
 Definition columns (depth : nat) (grid : list (list entry)) : list (list entry) := map (column grid) (seq 0 depth).
 
+(* a column of placeholders only: ft.reduce(np.kron, .) is a scalar (the int 1 itself for one row, else numpy.int64(1)), not an array *)
+Definition scalar_col (c : list entry) : bool := forallb (isOne R) c.
+
 (* the loop: kron-reduce every column, multiply from the left, first column first *)
 Definition grid_product (cols : list (list entry)) : res wmat :=
   match cols with
   | [] => Err IndexError                                   (* depth = 0 *)
   | [] :: _ => Err IndexError                              (* nqubit = 0 *)
   | c0 :: rest =>
+      if scalar_col c0 && match rest with c1 :: _ => scalar_col c1 | [] => false end then Err TypeError else     (* scalar @ scalar *)
       m0 <- reduce_kron R rmul (map (ofE R rI) c0) ;;
       fold_left (fun acc c => p <- acc ;; m <- reduce_kron R rmul (map (ofE R rI) c) ;; matmul R radd rmul m p) rest (Ok m0)
   end.
